@@ -4,10 +4,10 @@ from . import common, refine, vocab, render, sig
 from .common import log
 
 SMALL_FAMS = ("F3a", "F3b", "F3c", "F4", "F4b", "F8f", "FG", "F5e", "FK", "F3e")
-ALL_FAMS = ["F1a", "F1b", "F1c", "F1d", "F1e", "F1f", "F1g", "F2a", "F2b", "F2c", "F2z", "F2s", "F3a", "F3b", "F3c", "F3d", "F4", "F4b", "F5a", "F5b", "F5c", "F5d", "F7a", "F7b", "F7c", "F8", "F8g", "F8f", "F8h", "F9", "FL", "FW", "FP", "FG", "FT", "F5e", "FK", "F1n", "F2d", "F7d", "F3e", "F5f", "F5g", "F2e", "FO"]
+ALL_FAMS = ["F1a", "F1b", "F1c", "F1d", "F1e", "F1f", "F1g", "F2a", "F2b", "F2c", "F2z", "F2s", "F3a", "F3b", "F3c", "F3d", "F4", "F4b", "F5a", "F5b", "F5c", "F5d", "F7a", "F7b", "F7c", "F8", "F8g", "F8f", "F8h", "F9", "FL", "FW", "FP", "FG", "FT", "F5e", "FK", "F1n", "F2d", "F7d", "F3e", "F5f", "F5g", "F5h", "F2e", "FO"]
 # quick-tier sample size per family (the thorough tier takes every program of every family)
 QUICK_N = {"F1a": 500, "F1b": 250, "F1c": 150, "F1d": 250, "F1e": 100, "F1f": 250, "F1g": 100, "F2a": 400, "F2z": 60, "F2s": 60, "F2b": 63,
-           "F2c": 120, "F3a": 150, "F3b": 80, "F3c": 12, "F4": 26, "F5a": 200, "F5b": 120, "F5c": 200, "F5d": 40, "F3d": 50, "F4b": 60, "F7a": 84, "F7b": 250, "F7c": 200, "F8": 400, "F8g": 450, "F8f": 80, "F9": 350, "FL": 80, "FW": 10, "F4": 60, "F3d": 60, "F3b": 81, "F2c": 136, "FK": 10, "F5g": 20, "F5f": 30}
+           "F2c": 120, "F3a": 150, "F3b": 80, "F3c": 12, "F4": 26, "F5a": 200, "F5b": 120, "F5c": 200, "F5d": 40, "F3d": 50, "F4b": 60, "F7a": 84, "F7b": 250, "F7c": 200, "F8": 400, "F8g": 450, "F8f": 80, "F9": 350, "FL": 80, "FW": 10, "F4": 60, "F3d": 60, "F3b": 81, "F2c": 136, "FK": 10, "F5g": 20, "F5f": 30, "F5h": 105}
 
 
 SIGNED_PLAIN = [dict(name="pc", kind="s", w=8, sg=True, n=1), dict(name="pca", kind="a", w=8, sg=True, n=4)]
@@ -99,7 +99,28 @@ def c01(tier):
     st = pl.stats
     if st["programs"] - st["rejected"] - st["crashed"] - st["linkerr"] < 10 or st["src_ok"] < 100:
         raise common.ToolError("vacuous run: %s" % json.dumps(st))
-    cov = dict(programs=st["programs"], disagreements_checked=nbad, samples=pl.samples[:5],
+    # ---- Layer 2: FlagProv.tla validates the generator's belief about the flags at every place where it relied on it (hook H3) while
+    # compiling the corpus; an unjustified belief is a candidate: the program is executed again on many more inputs before anything is reported
+    from . import flagprov
+    events, fprog, fuses = flagprov.collect([dict(id=c["id"], src=c["variants"][0]["src"], args=c["variants"][0]["args"]) for c in cases], "c01")
+    layer2 = dict(hook_available=common.FLAGS_HOOK[0], programs=fprog, uses_recorded=fuses, distinct_uses_validated=len(events))
+    if events:
+        fres, fver = flagprov.validate(events, "c01")
+        cand = [ev for ev in events if not fver[ev["id"]]["ok"]]
+        already = set(m["id"] for m in pl.mismatches)
+        cids = sorted(set(ev["case"] for ev in cand) - already)
+        layer2.update(states=fres.distinct, unjustified=len(cand), candidate_programs=len(cids),
+                      first_candidates=[dict(case=ev["case"], belief=ev["belief"], flags_describe=fver[ev["id"]]["desc"],
+                                             code_tail=["%s %s" % (l["mn"], l["op"]) if l["k"] == "i" else l["op"] + ":" for l in ev["lines"] if l["k"] in "il"][-8:]) for ev in cand[:5]])
+        if cids:
+            pl2 = refine.Pipeline("c01fp", tier=tier)
+            pl2.run([c for c in cases if c["id"] in set(cids)], sem=True, pair=False, maxin=400, small_fams=SMALL_FAMS)
+            nbad2 = judge(pl2, verdict, pid, finding_signatures(pid), bodies)
+            layer2.update(candidates_executed_on_more_inputs=pl2.stats["programs"], inputs=pl2.stats["inputs"], candidates_confirmed=nbad2)
+            st["states"] += pl2.stats["states"]
+            st["behaviours"] += pl2.stats["behaviours"]
+            nbad += nbad2
+    cov = dict(programs=st["programs"], disagreements_checked=nbad, samples=pl.samples[:5], layer2_FlagProv=layer2,
                states=st["states"], transitions=st["transitions"], traces_validated_against_impl=st["behaviours"],
                families={f: dict(total_in_family=total[f]) for f in total}, accepted=st["programs"] - st["rejected"] - st["crashed"],
                rejected_by_compiler=st["rejected"], reject_reasons=st["reject_reasons"], link_errors=st["linkerr"],
